@@ -30,6 +30,12 @@ theorem order_spec (t : T) (i : Nat) :
     (allChildren t i).Pairwise (· ≤ ·) ∧ (children t i).Pairwise (· < ·) :=
   ⟨rfl, rfl, allChildren_sorted t i, children_sorted t i⟩
 
+/-- the lines after `i` in the non-recursive order are exactly the direct children of `i`:
+the other lines whose parent is `i` -/
+theorem order_children_mem (t : T) (i j : Nat) :
+    j ∈ (order t i false).tail ↔ j < t.size ∧ j ≠ i ∧ parentOf t j = i := by
+  simp [order, children]
+
 /-- every list of lines has a first matching line or none, never both, and the first is unique:
 the two cases below (`iterTyped_first`, `iterTyped_default`) are exhaustive and exclusive -/
 theorem first_or_none (c : Ctx) (l : List Nat) :
